@@ -216,3 +216,47 @@ Proof.
   - destruct (eval_cond env c1), (eval_cond env c2); try discriminate. now rewrite (IHc1 _ eq_refl), (IHc2 _ eq_refl).
   - destruct (eval_cond env c1), (eval_cond env c2); try discriminate. now rewrite (IHc1 _ eq_refl), (IHc2 _ eq_refl).
 Qed.
+
+(* ------------------------------------------------------------------ the most specific value, step by step *)
+Lemma lookup_update_same x v o w : lookup x o = Some w -> lookup x (update x v o) = Some v.
+Proof.
+  induction o as [|[y u] t IH]; cbn; [discriminate|].
+  destruct (N.eqb y x) eqn:E; cbn; rewrite E; auto.
+Qed.
+
+Lemma lookup_update_other x y v o : y <> x -> lookup y (update x v o) = lookup y o.
+Proof.
+  intros N. induction o as [|[z u] t IH]; cbn; auto.
+  destruct (N.eqb z x) eqn:E; cbn.
+  - apply N.eqb_eq in E. subst z. destruct (N.eqb x y) eqn:E2; auto. apply N.eqb_eq in E2. congruence.
+  - destruct (N.eqb z y); auto.
+Qed.
+
+(* an accepted scanner-level definition becomes the value that scanner sees; every other variable keeps its value *)
+Theorem scanner_define_sets_proof : forall o x d o',
+  scanner_define o x d = (o', ROk) ->
+  lookup x o' = Some (dval_payload d) /\ forall y, y <> x -> lookup y o' = lookup y o.
+Proof.
+  intros o x d o' H. unfold scanner_define in H. destruct (lookup x o) as [v|] eqn:L; [|discriminate].
+  destruct d as [z|z|q|[s|]]; destruct v; try discriminate; injection H as <-; cbn;
+    (split; [eapply lookup_update_same; eauto | intros; now apply lookup_update_other]).
+Qed.
+
+(* a scan reports exactly the objects of its own scanner *)
+Theorem scan_sees_own_objects_proof : forall w k ob, slot_get k (w_scanners w) = Some ob -> step w (OScan k) = (w, Seen ob).
+Proof. intros w k ob H. cbn. now rewrite H. Qed.
+
+(* the closed form over histories ([spec_scanner], Model/Externals.v) evaluated against the state machine on a
+   history with all three levels, valid and invalid definitions *)
+Definition msv_history : list op :=
+  [ORDef 1%N (DI 7); OCreate 0%nat; ORDef 1%N (DB 1); ORDef 1%N (DI 8); OCreate 1%nat; OSDef 0%nat 1%N (DB 2);
+   OSDef 1%nat 1%N (DF (1#2)); OSDef 1%nat 2%N (DS (Some [98%N])); ORDef 2%N (DS (Some [99%N])); OCreate 2%nat; ODestroy 0%nat].
+Lemma msv_example_proof :
+  let w := run_state world0 ([OCDef 1%N (DI 5); OCDef 2%N (DS (Some [97%N])); OCDef 1%N (DF (1#2)); OGetRules] ++ msv_history) in
+  forall k x decl, In (k, x, decl) [(0%nat, 1%N, (XInt, PI 5)); (1%nat, 1%N, (XInt, PI 5)); (2%nat, 1%N, (XInt, PI 5));
+                                    (0%nat, 2%N, (XStr, PS [97%N])); (1%nat, 2%N, (XStr, PS [97%N])); (2%nat, 2%N, (XStr, PS [97%N]))] ->
+  match slot_get k (w_scanners w) with Some ob => lookup x ob | None => None end = spec_scanner (rev msv_history) decl k x.
+Proof.
+  cbv zeta. intros k x decl H. cbn [In] in H.
+  repeat (destruct H as [H|H]; [injection H as <- <- <-; vm_compute; reflexivity|]). contradiction.
+Qed.
